@@ -4,7 +4,7 @@ CONSTANTS
   Srcs = {"task_val", "task_err", "task_exc", "sched_val", "sched_throw", "lcontract_val"}
   Atts = {"inline", "e1", "inh"}
   Args = {"V", "E", "X", "R"}
-  Behs = {"val", "throw", "res_err", "fut_pending", "shared_pending", "task_make", "task_sched_stopped", "task_sched", "task_contract"}
+  Behs = {"val", "void_hop", "void_throw", "throw", "res_err", "fut_pending", "shared_pending", "task_make", "task_sched_stopped", "task_sched", "task_contract"}
   Rejects = {9}
   Starts = {"to_future", "to_future_e2", "get", "detach", "detach_e2", "drop"}
 INVARIANTS CalledXorDropped DropOnlyWhenStopped RanWhereTold InvokedInOrder LazyEqualsEager CancelRunsNoValueCallback AllocBound Emit
